@@ -10,6 +10,7 @@ CONSTANTS
   TG = "t22c"
   LAYOUTS = {"dfs", "hole", "rev", "low"}
   EMIT = TRUE
+VIEW View
 INVARIANTS LawReduce ResultWellFormed
 ACTION_CONSTRAINT Emit
 CHECK_DEADLOCK FALSE
